@@ -18,4 +18,11 @@ def from_frame_contract(cls, f, devicetype=0, dev_inst_map=None):
     if f._bits == 16:
         if ((f._data >> 8) & 0xFF) == 0xC1:
             return new_object(G.EnableDeviceType, _data=f, param=f._data & 0xFF)
-    return new_object(C.Command, _data=f, _decoded_under=(devicetype, dev_inst_map))
+    # flags of the decoded command: a function of (frame, device type) in reality, arbitrary here
+    from pyvc import sym as _sym
+    c = _sym.ctx()
+    twice = bool(c.fresh_bool("decoded_sendtwice")) if c is not None else False
+    resp = None
+    if not twice and c is not None and bool(c.fresh_bool("decoded_is_query")):
+        resp = C.NumericResponse
+    return new_object(C.Command, _data=f, _decoded_under=(devicetype, dev_inst_map), sendtwice=twice, response=resp)
